@@ -73,6 +73,11 @@ func clauseTags(fc *FuncContract) map[string]bool {
 			}
 		}
 	}
+	for _, as := range fc.Asserts {
+		for _, t := range as.Clause.Tags {
+			out[t] = true
+		}
+	}
 	return out
 }
 
